@@ -12,17 +12,17 @@ open Jelly Jelly.Py
 def Decoder.decode_statement (dec : WTerm → M DecState Term) (statement : PStmt) (oneofs : List SlotName) : M DecState (List Term) := do
   let mut terms : List Term := []
   terms := ([] : List Term)
-  for slot_name in oneofs do
-    let mut which : Option WTerm := default
-    let mut raw_term : WTerm := default
+  for oneof in oneofs do
+    let mut field : Option WTerm := default
+    let mut jelly_term : WTerm := default
     let mut decoded_term : Term := default
-    which := pstmtGet statement slot_name
-    if (which).isSome then
-      raw_term := (← liftE (optGet which))
-      decoded_term := (← dec raw_term)
-      modify fun d => { d with rep := repSet d.rep slot_name decoded_term }
+    field := pstmtGet statement oneof
+    if (field).isSome then
+      jelly_term := (← liftE (optGet field))
+      decoded_term := (← dec jelly_term)
+      modify fun d => { d with rep := repSet d.rep oneof decoded_term }
     else
-      decoded_term := (← liftE (repGet (← get).rep slot_name))
+      decoded_term := (← liftE (repGet (← get).rep oneof))
     terms := terms ++ [decoded_term]
   return terms
 
